@@ -33,13 +33,26 @@ class PropertyViolation(Exception):
 
 
 class Int:
-    __slots__ = ("w", "s", "v")
+    """Machine integer: width, signedness, value (python int or z3 bit-vector) and a sound unsigned interval
+    [lo, hi] of its bit pattern (used to decide comparisons / overflow checks without a solver query)."""
+    __slots__ = ("w", "s", "v", "lo", "hi", "vals")
 
-    def __init__(self, w, s, v):
+    def __init__(self, w, s, v, lo=None, hi=None, vals=None):
         self.w, self.s = w, s
+        self.vals = None
         if isinstance(v, int):
             v &= (1 << w) - 1
+            self.lo = self.hi = v
+        else:
+            self.lo = 0 if lo is None else lo
+            self.hi = ((1 << w) - 1) if hi is None else hi
+            if vals is not None and len(vals) <= 96:
+                self.vals = vals          # sound finite superset of the possible bit patterns
+                self.lo, self.hi = max(self.lo, min(vals)), min(self.hi, max(vals))
         self.v = v
+
+    def valset(self):
+        return frozenset((self.v,)) if isinstance(self.v, int) else self.vals
 
     def conc(self):
         return isinstance(self.v, int)
@@ -51,18 +64,26 @@ class Int:
         v = self.v
         return v - (1 << self.w) if self.s and v >> (self.w - 1) else v
 
+    def nonneg(self):
+        """bit pattern certainly below the sign bit (so signed and unsigned readings agree)"""
+        return self.hi < (1 << (self.w - 1))
+
     def __repr__(self):
         return f"{'i' if self.s else 'u'}{self.w}({self.sval() if isinstance(self.v, int) else self.v})"
 
 
-def mk(w, s, zexpr):
+def mk(w, s, zexpr, lo=None, hi=None, vals=None):
     """Int from a z3 term, folding to a Python int when the term simplifies to a numeral."""
     if isinstance(zexpr, int):
         return Int(w, s, zexpr)
+    if lo is not None and lo == hi:
+        return Int(w, s, lo)
+    if vals is not None and len(vals) == 1:
+        return Int(w, s, next(iter(vals)))
     zexpr = z3.simplify(zexpr)
     if z3.is_bv_value(zexpr):
         return Int(w, s, zexpr.as_long())
-    return Int(w, s, zexpr)
+    return Int(w, s, zexpr, lo, hi, vals)
 
 
 def mkbool(b):
